@@ -199,7 +199,9 @@ FileTrees == IF Mode = "file" THEN ndJsonDeserialize(IOEnv.TRACE_FILE) ELSE <<>>
 
 Out(t) == [tree |-> t, s |-> Join(Render(t, "min")), sf |-> Join(Render(t, "full")), rs |-> ReflexString(t),
            vals |-> [k \in DOMAIN Envs |-> Denote(t, Envs[k])]]
-Show(t) == (Emit /\ InDomain(t) /\ Code(t) % SampleMod = SampleRes) => PrintT(ToJson(Out(t)))
+\* one-node trees are never sampled away: they are the ones also applied as operator OBJECTS (separate output and in place)
+OneNode(t) == (t[1] = "B" /\ t[3][1] = "L" /\ t[4][1] = "L") \/ (t[1] = "F" /\ t[3][1] = "L")
+Show(t) == (Emit /\ InDomain(t) /\ (Code(t) % SampleMod = SampleRes \/ OneNode(t))) => PrintT(ToJson(Out(t)))
 
 Init == IF Mode = "enum" THEN tree \in T2 /\ phase = "left"
         ELSE tree = <<"L", "0">> /\ phase = 0
